@@ -93,7 +93,7 @@ def discharge(ob: Obligation, z3_ms=None):
         s.add(c)
     s.add(z3.Not(ob.goal))
     t0 = time.time()
-    r = s.check()
+    r = timed_check(s, z3_ms)
     dt = time.time() - t0
     if r == z3.unsat:
         return ("unsat", "z3", dt, None, "")
@@ -141,7 +141,7 @@ def discharge(ob: Obligation, z3_ms=None):
             sb.add(z3.substitute(c, *subst))
         sb.add(z3.Not(z3.substitute(ob.goal, *subst)))
         t0 = time.time()
-        rb = sb.check()
+        rb = timed_check(sb, max(2000, z3_ms // 4))
         dt += time.time() - t0
         if rb == z3.sat:
             m = sb.model()
@@ -166,7 +166,7 @@ def discharge(ob: Obligation, z3_ms=None):
         s2.add(c)
     s2.add(z3.Not(ob.goal))
     t0 = time.time()
-    r2 = s2.check()
+    r2 = timed_check(s2, z3_ms * 4)
     dt3 = time.time() - t0
     if r2 == z3.unsat:
         return ("unsat", "z3", dt + dt2 + dt3, None, "")
